@@ -110,7 +110,7 @@ def _judge_one(U, op, A, out, k, rs, family, case, rec):
             kk = np.int64(k)
         elif (k + E) % 3 == 1 and k >= 0:
             kk = (np.uint64, np.uint8, np.uint16)[(k + p) % 3](k) if k < 250 else np.uint64(k)      # unsigned counts, as A.sum() of an unsigned matrix gives
-        R = fn(A, kk, **kw)
+        R = fn(A, kk, *kw.values()) if (k + p) % 2 and list(kw) == ["random_state"] else fn(A, kk, **kw)
         raised = None
     except ValueError as e:
         R, raised = None, e
